@@ -22,10 +22,11 @@ type ReplayCase struct {
 	Tier    int    `json:"tier"`
 	Draws   []Draw `json:"draws"`
 	// expectation (engine side)
-	Kind   string `json:"kind"` // witness | assert | panic
-	Label  string `json:"label"`
-	Func   string `json:"func"`
-	Detail string `json:"detail"`
+	Kind   string   `json:"kind"` // witness | assert | panic
+	Obs    []string `json:"obs,omitempty"`
+	Label  string   `json:"label"`
+	Func   string   `json:"func"`
+	Detail string   `json:"detail"`
 }
 
 type KnownFinding struct {
@@ -42,6 +43,9 @@ type KnownFinding struct {
 }
 
 var verifDir = "/verif"
+
+// nativeObs: vp.Observe lines printed by the native replay, per case id.
+var nativeObs = map[int][]string{}
 
 func main() {
 	if len(os.Args) < 2 {
@@ -148,7 +152,7 @@ func cmdCheck(args []string) int {
 		sort.Strings(labels)
 		for _, l := range labels {
 			w := h.Covers[l]
-			cases = append(cases, &ReplayCase{ID: id, Harness: h.Name, Package: h.Pkg, Tier: tier, Draws: w.Draws, Kind: "witness", Label: l})
+			cases = append(cases, &ReplayCase{ID: id, Harness: h.Name, Package: h.Pkg, Tier: tier, Draws: w.Draws, Kind: "witness", Label: l, Obs: w.Obs})
 			id++
 		}
 		for _, v := range h.Viol {
@@ -157,6 +161,7 @@ func cmdCheck(args []string) int {
 		}
 	}
 	outcomes := map[int]string{}
+	nativeObs = map[int][]string{}
 	var replayErr error
 	if !*noReplay && len(cases) > 0 {
 		outcomes, replayErr = nativeReplay(*repo, *hdir, prop, cases)
@@ -279,6 +284,15 @@ func nativeReplayIn(tmp, repo, hdir, prop string, cases []*ReplayCase, depth int
 	timedOut := -1
 	for _, line := range strings.Split(string(out), "\n") {
 		line = strings.TrimSpace(line)
+		if i := strings.Index(line, "VPOBS "); i >= 0 {
+			f := strings.SplitN(line[i+6:], " ", 2)
+			if len(f) == 2 {
+				if n, err := strconv.Atoi(f[0]); err == nil {
+					nativeObs[n] = append(nativeObs[n], f[1])
+				}
+			}
+			continue
+		}
 		if i := strings.Index(line, "VPRESULT "); i >= 0 {
 			f := strings.SplitN(line[i+9:], " ", 2)
 			if len(f) == 2 {
